@@ -48,6 +48,64 @@ PY = Site("py", BP, {"self.extensible": "extensible", "ctx.is_encode": "is_encod
 GO = Site("go", GO_RT, {"t.extensible": "extensible", "ctx.isEncode": "is_encode", "t.capacity": "capacity", "t.nbits": "nbits", "ctx.i": "cur"}, "processBaseType", 3, "Uint16Accessor", "data", "DataIndexer", "fnumber")
 CS = Site("c", C_RT, {"descriptor.extensible": "extensible", "ctx.is_encode": "is_encode", "descriptor.cap": "capacity", "descriptor.nbits": "nbits", "ctx.i": "cur"}, "BpEndecodeBaseType", 2, None, "", None, "")
 
+# the generator <-> runtime contract: what the k-th constructor argument of a
+# processor means.  Field names are canonicalised to these roles through the
+# constructor (dataclass field order / the struct literal of New<T>), so that
+# the judges never depend on how a runtime spells its fields.
+ROLE_AT = {
+    "Array": ["extensible", "capacity", "element_processor"],
+    "Int": ["nbits"],
+    "Uint": ["nbits"],
+    "MessageProcessor": ["extensible", "nbits", "field_processors"],
+    "MessageFieldProcessor": ["field_number", "type_processor"],
+    "EnumProcessor": ["ut"],
+    "AliasProcessor": ["to"],
+}
+
+
+def ctor_fields(L: Lang, cls: str) -> List[Optional[str]]:
+    """field the k-th constructor argument is stored in"""
+    if L.lang == "py":
+        if cls not in L.classes:
+            raise Inconclusive(f"py: class {cls} vanished")
+        return list(L.classes[cls])
+    fn = L.funcs.get("New" + cls)
+    if fn is None:
+        raise Inconclusive(f"go: constructor New{cls} vanished")
+    params = [a.arg for a in fn.args.args]
+    out: List[Optional[str]] = [None] * len(params)
+    paths = [p for p in L.flow().run(fn) if p.done == "return" and p.ret is not None]
+    if len(paths) != 1:
+        raise Inconclusive(f"go: New{cls} has {len(paths)} return paths")
+    np_ = new_parts(paths[0].ret)
+    if np_ is None or np_[0] != cls:
+        raise Inconclusive(f"go: New{cls} does not return a {cls} literal")
+    for k, pn in enumerate(params):
+        fs = [f for f, v in np_[1].items() if v == V(pn)]
+        if len(fs) == 1:
+            out[k] = fs[0]
+    return out
+
+
+def role_names(L: Lang, site: "Site", cls: Optional[str]) -> Dict[str, str]:
+    """site.names + {receiver.field -> role} for the processor class cls"""
+    names = dict(site.names)
+    if cls is None or cls not in ROLE_AT or site.lang not in ("py", "go"):
+        return names
+    fields = ctor_fields(L, cls)
+    roles = ROLE_AT[cls]
+    if len(fields) != len(roles) or any(f is None for f in fields):
+        raise Inconclusive(f"{site.lang}: constructor of {cls} stores {fields}, the generator passes {roles}")
+    recvs = {m.args.args[0].arg for m in L.methods.get(cls, {}).values() if m.args.args}
+    # drop the spelled defaults for this class, the constructor decides
+    for r in recvs:
+        for k in [k for k in names if k.startswith(r + ".")]:
+            del names[k]
+        for f, role in zip(fields, roles):
+            names[f"{r}.{f}"] = role
+    return names
+
+
 EXT = ("truthy", V("extensible"))
 ENC = ("truthy", V("is_encode"))
 
@@ -84,7 +142,7 @@ def scratch(site: Site, v: Poly) -> Optional[Tuple[str, Optional[Poly], Poly]]:
 
 def flow_for(L: Lang, site: Site, key: str, extra_prims: Sequence[str] = ()) -> PyFlow:
     cls = key.split(".")[0] if "." in key else None
-    return L.flow(cls, primitives=(site.base,) + tuple(extra_prims), names=site.names)
+    return L.flow(cls, primitives=(site.base,) + tuple(extra_prims), names=role_names(L, site, cls))
 
 
 class Judged:
@@ -383,7 +441,7 @@ def check_children(paths: List[Path], site: Site, kind: str, j: Judged) -> None:
                     j.v("children", f"the index stack top is set to `{show(repl[0].args[0])}`, not the loop counter", construct=str(cs), witness="byte[3]: every element reads/writes element 0")
                     return
                 rv = proc[0].recv
-                if rv is None or show(rv) not in ("self.element_processor", "t.elementProcessor"):
+                if rv is None or show(rv) != "element_processor":
                     j.u(f"element processor receiver is `{show(rv) if rv is not None else None}`")
             # index stack push / pop around the loop
             names = [e.name for e in p.effects]
@@ -401,7 +459,7 @@ def check_children(paths: List[Path], site: Site, kind: str, j: Judged) -> None:
                     j.v("index-stack", "the array index stack is not pushed and (deferred) popped", witness="nested arrays address the wrong element")
         else:
             if lang in ("py", "go"):
-                if it is None or show(it) not in ("self.field_processors", "t.fieldDescriptors"):
+                if it is None or show(it) != "field_processors":
                     j.u(f"field loop iterates `{show(it) if it is not None else None}`")
                     return
                 lv = _loop_var(lp)
@@ -496,7 +554,7 @@ def d3(repo: Repo) -> RuleResult:
         try:
             key = "MessageFieldProcessor.process" if site.lang == "py" else "MessageFieldProcessor.Process"
             fn = L.func(key)
-            fl = L.flow("MessageFieldProcessor", primitives=(site.base,), names=site.names)
+            fl = L.flow("MessageFieldProcessor", primitives=(site.base,), names=role_names(L, site, "MessageFieldProcessor"))
             ok = True
             why = ""
             for p in fl.run(fn):
@@ -508,7 +566,7 @@ def d3(repo: Repo) -> RuleResult:
                 num = None
                 if di is not None:
                     num = di[1].get(site.di_field)
-                if di is None or di[0] != site.di_cls or num is None or show(num) not in ("self.field_number", "t.fieldNumber"):
+                if di is None or di[0] != site.di_cls or num is None or show(num) != "field_number":
                     ok, why = False, show(cs[0].args[1])
             res.inst(part=site.lang, function=key, ok=ok)
             if not ok:
@@ -612,11 +670,10 @@ def d7(repo: Repo) -> RuleResult:
             res.unsure(f"D7: {site.lang}: {e}")
             continue
         proc = "process" if site.lang == "py" else "Process"
-        me = "self" if site.lang == "py" else "t"
-        for cname, target in (("AliasProcessor", f"{me}.to"), ("EnumProcessor", f"{me}.ut")):
+        for cname, target in (("AliasProcessor", "to"), ("EnumProcessor", "ut")):
             try:
                 fn = L.func(f"{cname}.{proc}")
-                paths = L.flow(cname, primitives=(site.base,), names=site.names).run(fn)
+                paths = L.flow(cname, primitives=(site.base,), names=role_names(L, site, cname)).run(fn)
             except Inconclusive as e:
                 res.unsure(f"D7: {site.lang}:{cname}: {e}")
                 continue
@@ -635,7 +692,7 @@ def d7(repo: Repo) -> RuleResult:
         # Int: bit copy, then the sign step on decode only
         try:
             fn = L.func(f"Int.{proc}")
-            paths = L.flow("Int", primitives=(site.base,), names=site.names).run(fn)
+            paths = L.flow("Int", primitives=(site.base,), names=role_names(L, site, "Int")).run(fn)
             ok = True
             shapes = []
             sign = "bp_process_int" if site.lang == "py" else "BpProcessInt"
@@ -660,7 +717,7 @@ def d7(repo: Repo) -> RuleResult:
         for cname, n in (("Bool", C(1)), ("Byte", C(8)), ("Uint", V("nbits"))):
             try:
                 fn = L.func(f"{cname}.{proc}")
-                paths = L.flow(cname, primitives=(site.base,), names=site.names).run(fn)
+                paths = L.flow(cname, primitives=(site.base,), names=role_names(L, site, cname)).run(fn)
             except Inconclusive as e:
                 res.unsure(f"D7: {site.lang}:{cname}: {e}")
                 continue
